@@ -111,7 +111,9 @@ func runC14(c *ev.Ctx) {
 				if !c.Mine(idx) {
 					continue
 				}
+				c14TagA = []uint16{300, 300, 0xFFFF, 300, 0, 300, 0xFFFE, 300}[idx%8]
 				c14Run(c, k, variant, sc)
+				c14TagA = 300
 			}
 		}
 	}
@@ -150,6 +152,9 @@ func runC14(c *ev.Ctx) {
 
 var c14ev = []string{"F", "RA", "RB", "T", "C"}
 
+// c14TagA is the tag of the flushed request in c14Run.
+var c14TagA uint16 = 300
+
 func c14Run(c *ev.Ctx, k c14kind, variant string, sc []int) {
 	var names []string
 	for _, e := range sc {
@@ -178,7 +183,10 @@ func c14Run(c *ev.Ctx, k c14kind, variant string, sc []int) {
 	defer gB.Release()
 	p := cc.p
 	from := p.NReplies()
-	const tagA, tagB, tagF2 = 300, 301, 311
+	// A's tag: mostly 300; the boundary values of the tag space in rotation
+	// (the server serves a request under 0xFFFF like any other)
+	tagA := c14TagA
+	const tagB, tagF2 = 301, 311
 	mark := w.fs.NCalls()
 	// A first: were B parked first it would hold the rename lock for reading and
 	// a rename-class A could never reach its gate. For rename-class A there is no
@@ -221,10 +229,10 @@ func c14Run(c *ev.Ctx, k c14kind, variant string, sc []int) {
 			nF++
 			lastFlush = tagF
 			flushA = append(flushA, tagF)
-			p.Send(wire.Tflush, tagF, u(tagA))
+			p.Send(wire.Tflush, tagF, u(uint64(tagA)))
 			expect[tagF] = true
 			if variant == "two-for-one" {
-				p.Send(wire.Tflush, tagF2, u(tagA))
+				p.Send(wire.Tflush, tagF2, u(uint64(tagA)))
 				expect[tagF2] = true
 				flushA = append(flushA, tagF2)
 			}
@@ -326,9 +334,10 @@ func c14Run(c *ev.Ctx, k c14kind, variant string, sc []int) {
 }
 
 func tagName(t uint16) string {
-	switch t {
-	case 300:
+	if t == c14TagA {
 		return "A"
+	}
+	switch t {
 	case 301:
 		return "B"
 	case 311:
